@@ -602,6 +602,17 @@ def f2(proj, rep, modules):
                     rep.ok('F2', fi.qual, f'`{ast.unparse(c)[:60]}`: radicand clamped', m, c)
                 continue
             if not _unit_radicand(arg):
+                # sqrt((A - B)/c): a difference of two computed positive quantities cancels; a tiny negative result gives NaN
+                core = arg
+                while isinstance(core, ast.BinOp) and isinstance(core.op, (ast.Div, ast.Mult)) and isinstance(core.right if isinstance(core.op, ast.Div) else core.left, (ast.Constant,)) :
+                    core = core.left if isinstance(core.op, ast.Div) else core.right
+                if isinstance(core, ast.BinOp) and isinstance(core.op, ast.Sub) and isinstance(core.left, ast.Name) and isinstance(core.right, ast.Name):
+                    wa = is_float_numeric(proj, m, fi.node, core.left)
+                    wb = is_float_numeric(proj, m, fi.node, core.right)
+                    if wa is not None and wb is not None:
+                        n += 1
+                        rep.violation('F2', fi.qual, f'`{ast.unparse(c)[:80]}`: the radicand is the difference of two computed quantities ({wa}, {wb}); when they are equal up '
+                                      f'to rounding (e.g. the maximally mixed state) the difference is a rounding error of either sign: NaN or an error of order sqrt(eps)', m, c)
                 continue
             X = _unit_radicand(arg)
             w = is_float_numeric(proj, m, fi.node, X)
